@@ -3,6 +3,7 @@ package main
 import (
 	"fmt"
 	"runtime"
+	"strings"
 	"go/constant"
 	"go/token"
 	"go/types"
@@ -281,8 +282,10 @@ func (m *Machine) exec(th *Thread, fr *Frame, in ssa.Instruction) bool {
 		fr.pc++
 	case *ssa.MakeChan:
 		sz := m.concretize(m.toInt64(m.get(fr, x.Size).(*Term), x.Size.Type()))
-		if cc, ok := m.H.ChanCap[m.fnName(fr.fn)]; ok && int(sz) == cc[0] {
-			sz = uint64(cc[1])
+		for pat, cc := range m.H.ChanCap {
+			if int(sz) == cc[0] && wildMatch(pat, m.fnName(fr.fn)) {
+				sz = uint64(cc[1])
+			}
 		}
 		m.nextObj++
 		fr.env[x] = ChanV{c: &ChanObj{cap: int(sz), id: m.nextObj, et: x.Type().Underlying().(*types.Chan).Elem(), site: m.curSite}}
@@ -562,4 +565,28 @@ func (m *Machine) describe(v Value) string {
 		return fmt.Sprintf("%s#%d", x.kind, x.id)
 	}
 	return fmt.Sprintf("%T", v)
+}
+
+// wildMatch: pattern with '*' wildcards against s.
+func wildMatch(pat, s string) bool {
+	parts := strings.Split(pat, "*")
+	if len(parts) == 1 {
+		return pat == s
+	}
+	if !strings.HasPrefix(s, parts[0]) {
+		return false
+	}
+	s = s[len(parts[0]):]
+	for i := 1; i < len(parts); i++ {
+		p := parts[i]
+		if i == len(parts)-1 {
+			return strings.HasSuffix(s, p)
+		}
+		j := strings.Index(s, p)
+		if j < 0 {
+			return false
+		}
+		s = s[j+len(p):]
+	}
+	return true
 }
